@@ -22,18 +22,30 @@ func (c01) Rule() string {
 
 var c01Sweep = []string{"uniform", "alpha2", "alpha16", "text", "equal", "runs"}
 
-type c01Layout struct{ core, random, sweepSmall, sweepRoll int }
+type c01Layout struct{ core, random, sweepSmall, sweepRoll, tokenCap, chunk int }
+
+// token-cap sweep: number of incompressible bytes (one token each) before a long run
+var c01CapLens = func() []int {
+	var v []int
+	for l := 32700; l <= 32800; l++ {
+		v = append(v, l)
+	}
+	for l := 65300; l <= 65560; l++ {
+		v = append(v, l)
+	}
+	return v
+}()
 
 func c01Lay(tier string) c01Layout {
 	if tier == "thorough" {
-		return c01Layout{core: 8 * len(gen.BoundarySizes) * 2, random: 40000, sweepSmall: 1201 * 6 * 4 * 2, sweepRoll: 98 * 2 * 4 * 3}
+		return c01Layout{core: 8 * len(gen.BoundarySizes) * 2, random: 40000, sweepSmall: 1201 * 6 * 4 * 2, sweepRoll: 98 * 2 * 4 * 3, tokenCap: len(c01CapLens) * 8 * 3, chunk: 8 * 4 * 3 * 4}
 	}
-	return c01Layout{core: 8 * len(gen.BoundarySizes), random: 6000, sweepSmall: 0, sweepRoll: 98 * 2 * 2}
+	return c01Layout{core: 8 * len(gen.BoundarySizes), random: 6000, sweepSmall: 0, sweepRoll: 98 * 2 * 2, tokenCap: len(c01CapLens) * 8, chunk: 8 * 4 * 2}
 }
 
 func (c01) NumCases(tier string) int {
 	l := c01Lay(tier)
-	return l.core + l.random + l.sweepSmall + l.sweepRoll
+	return l.core + l.random + l.sweepSmall + l.sweepRoll + l.tokenCap + l.chunk
 }
 
 func (c01) Plan(tier string) []mon.RunSpec {
@@ -99,6 +111,24 @@ func c01Case(tier string, i int, r *gen.Rand) (s Setting, d gen.Data, ops []gen.
 		d = gen.Make(r, fam, n)
 		ops = []gen.Op{{Kind: "write", N: n}, {Kind: "close"}}
 		kind = "sweep-small"
+	case i >= l.core+l.random+l.sweepSmall+l.sweepRoll+l.tokenCap:
+		// handled by chunkSweep (many sizes per case)
+		kind = "chunk-boundary-sweep"
+	case i >= l.core+l.random+l.sweepSmall+l.sweepRoll:
+		// the token buffer (32767 tokens) fills exactly where a match longer than
+		// 258 bytes begins: L one-token bytes, then a long run
+		k := i - l.core - l.random - l.sweepSmall - l.sweepRoll
+		L := c01CapLens[k%len(c01CapLens)]
+		k /= len(c01CapLens)
+		s = accelSettings[k%8]
+		b := r.Bytes(L + 1200)
+		v := byte(r.Intn(256))
+		for j := L; j < L+r.Pick(300, 600, 900); j++ {
+			b[j] = v
+		}
+		d = gen.Data{Desc: fmt.Sprintf("uniform%d+run", L), B: b}
+		ops = []gen.Op{{Kind: "write", N: len(b)}, {Kind: "close"}}
+		kind = "token-cap-sweep"
 	default:
 		k := i - l.core - l.random - l.sweepSmall
 		off := k%49 - 24
@@ -126,8 +156,66 @@ func c01Case(tier string, i int, r *gen.Rand) (s Setting, d gen.Data, ops []gen.
 	return
 }
 
-func (c01) Run(c *mon.Ctx, i int) {
+// chunkSweep: the writers hand their output to the destination in chunks of an
+// 8 KiB buffer; a block whose output ends exactly where a chunk fills is a
+// corner of its own. The compressed size per input byte is measured on a probe,
+// then 120 consecutive input sizes around the predicted chunk boundary are
+// round-tripped.
+func (c01) chunkSweep(c *mon.Ctx, i int) {
+	r := c.R
+	l := c01Lay(c.Tier)
+	k := i - (l.core + l.random + l.sweepSmall + l.sweepRoll + l.tokenCap)
+	s := accelSettings[k%8]
+	fam := []string{"uniform", "alpha16", "text", "nearuniform"}[(k/8)%4]
+	mult := (k/32)%3 + 1
+	data := gen.Make(r, fam, 70000).B
+	probe, err := emit(c.API, s, data[:20000], []gen.Op{{Kind: "write", N: 20000}, {Kind: "close"}})
+	if err != nil || len(probe) == 0 {
+		return
+	}
+	ratio := float64(len(probe)) / 20000
+	center := int(float64(mult*8180) / ratio)
+	if center > 69000 {
+		center = 69000
+	}
+	for n := center - 60; n <= center+60; n++ {
+		if n < 1 {
+			continue
+		}
+		withFlush := n%2 == 0
+		ops := []gen.Op{{Kind: "write", N: n}, {Kind: "close"}}
+		if withFlush {
+			ops = []gen.Op{{Kind: "write", N: n}, {Kind: "flush"}, {Kind: "write", N: 100}, {Kind: "close"}}
+		}
+		total := n
+		if withFlush {
+			total += 100
+		}
+		out, err := emit(c.API, s, data[:total], ops)
+		c.Eval(1)
+		if err != nil {
+			continue
+		}
+		if sig, what, _ := DecodeChecks(c.API, out, data[:total], nil); sig != "" {
+			desc := map[string]interface{}{"setting": s.String(), "data": fmt.Sprintf("%s/%d", fam, total), "ops": gen.OpsString(ops), "kind": "chunk-boundary-sweep", "emitted_len": len(out)}
+			c.Violate(fmt.Sprintf("%s|huffonly=%v|flush=%v", sig, s.Level == -2, withFlush), fmt.Sprintf("%s, data %s/%d, ops [%s]: %s", s, fam, total, gen.OpsString(ops), what), desc)
+			return
+		}
+		c.Count("streams-checked", 1)
+		c.Count("kind-chunk-boundary-sweep", 1)
+		if len(out) > 8192*mult-40 && len(out) < 8192*mult+40 {
+			c.Count("outputs-within-40-bytes-of-a-chunk-boundary", 1)
+		}
+		c.Nontrivial(s.String(), data[:total], n)
+	}
+}
+
+func (p c01) Run(c *mon.Ctx, i int) {
 	s, d, ops, kind := c01Case(c.Tier, i, c.R)
+	if kind == "chunk-boundary-sweep" {
+		p.chunkSweep(c, i)
+		return
+	}
 	sink := &Sink{}
 	w, err := NewWriter(c.API, s, sink)
 	if err != nil {
